@@ -104,6 +104,19 @@ PROPS = {
         "assumptions": ["non-spectral dimensions are represented by one generic dimension 'pos' (the code refers to freq/dir/time by name only)",
                         "transforms (regrid, smooth) and watershed partitions are covered under C08/C16/C03 where claimed"],
     },
+    "C16": {
+        "level": "other",
+        "engines": [{"kind": "pyse"}],
+        "explanation": "BOUNDED IN SHAPE, all values: smooth_spec (real code on proxies) is executed for fixed small grids (4x4 and 3x6 "
+        "bins, windows 1/3/5 per dimension, full-circle and partial uniform direction grids, stored rotated by a symbolic offset or "
+        "descending, symbolic grid origin, symbolic leading dimension) with symbolic spectral values; z3 proves per bin that the output keeps "
+        "dims/coordinates/order and equals the labelled circular window mean where the window fits and the input elsewhere (which implies the "
+        "min/max, identity and shift-commutation clauses); even windows raise ValueError. Not unbounded: xarray rolling/interp/sortby contracts are "
+        "modelled for concrete extents only.",
+        "trusted_base": ["rolling(center=True).mean, sortby, sel-by-label, concat, where contracts in engine/pyse/xrs.py (assumed; replayed concretely on real xarray)"],
+        "assumptions": ["grid spacing exactly representable (float32 cast of dir is the identity)", "shapes beyond the listed ones are not covered"],
+        "technique": "contract-based symbolic execution of the real function, bounded in grid shape (all values), z3",
+    },
 }
 
 _PENDING = "not yet brought under contract in the current build round (see DESIGN.md section 8 for the order of work)"
